@@ -197,6 +197,12 @@ class ModelProcessor(Processor):
         qc: :class:`.QubitCircuit`
             The transpiled quantum circuit.
         """
+        if qc.N > self.num_qubits:
+            raise ValueError(
+                "The circuit acts on {} qubits, the processor has {}.".format(
+                    qc.N, self.num_qubits
+                )
+            )
         if self.native_gates is not None:
             qc = self._decompose_multi_qubit_gates(qc)
         try:
